@@ -988,6 +988,11 @@ async fn run_c10(sc: &Value, rec: Arc<Recorder>) -> Value {
     let mut reneg_ok = true;
     let mut all_rounds_ok = true;
     for round in 1..=rounds {
+        if round == 2 && !connected {
+            // nothing to renegotiate on: the run is judged on "never connected"
+            all_rounds_ok = false;
+            break;
+        }
         if round == 2 {
             // renegotiation: a second offer/answer round on the established connection
             let by = if cfg.reneg == "offerer" { cfg.offerer.clone() } else if cfg.offerer == "A" { "B".to_string() } else { "A".to_string() };
